@@ -44,7 +44,11 @@ def templates(rng):
           (3, 0, 0, 1, [['monlock', 'monwait', 'csenter', 'csleave', 'monunlock'], ['monset'], CS]),
           (2, 0, 0, 1, [['monlock', 'monset', 'monunlock'], W]),
           (3, 0, 0, 1, [W, ['monset'], ['monlock']]),
-          (2, 0, 0, 1, [['monwait'], ['monset']])]
+          (2, 0, 0, 1, [['monwait'], ['monset']]),
+          # an earlier set() nobody consumed leaves the flag up: a later set() must still wake the waiter
+          (2, 0, 0, 1, [['monset'] + W, ['monset']]),
+          (3, 0, 0, 1, [W, ['monset', 'monset'], ['monset'] + Wt()]),
+          (3, 0, 0, 1, [['monset', 'monset'] + W, W, ['monset', 'monset']])]
     # Mutex
     L = ['lock', 'csenter', 'csleave', 'unlock']
     LL = ['lock', 'lock', 'csenter', 'csleave', 'unlock', 'unlock']
@@ -247,6 +251,9 @@ class C11(Check):
                 ((3, 0, 0, 1, [W, ['monset'], ['monset']]), None, (60, 1, 0)),
                 ((2, 0, 0, 1, [L, L]), None, (60, 0, 0)),
                 ((3, 0, 1, 1, [['semwait'], ['semwaitt=10'], ['semsignal']]), BASES[1], (60, 1, 1)),
+                ((3, 0, 0, 1, [W, Wt10, ['monset']]), BASES[1], both_blocked + ['m rot 1'], (60, 1, 2)),
+                ((4, 0, 0, 1, [W, Wt10, Wt10, ['monset', 'monset']]), BASES[1], both_blocked + ['m run 2'] * 4, (60, 0, 2)),
+                ((3, 0, 0, 1, [['monset'] + W, Wt10, ['monset']]), BASES[1], [], (60, 0, 1)),
             ]
         maxleaves = 6000 if thorough else 1500
         scopes = [sc if len(sc) == 4 else (sc[0], sc[1], [], sc[2]) for sc in scopes]
@@ -327,7 +334,9 @@ class C11(Check):
                 for l in obs:
                     sec = l.split(' | ')
                     if len(sec) >= 2 and sec[1].strip() not in ('-', '') and not l.startswith(('final', 'dl ')):
-                        fh.write('e ' + sec[1].strip() + '\n')
+                        toks = [e for e in sec[1].split() if not re.match(r'P\d+$', e)]      # P<t>: only for the state oracle
+                        if toks:
+                            fh.write('e ' + ' '.join(toks) + '\n')
                 fh.write('end\n')
         rc, out, err = sh([self.exes['model'], 'judge', jf], timeout=600)
         if rc != 0:
@@ -386,8 +395,8 @@ class C11(Check):
         """What the property says about states (not histories), read off the implementation's own observation lines:
         a crash; occupancy of a critical section; at a quiescent end (nothing enabled, no timed waiter) no Signal
         waiter is blocked while the signal is set, no Semaphore waiter while the count is positive, and no Monitor
-        waiter that saw a set() since it blocked is still blocked while the flag is up unless a woken waiter is
-        itself waiting for the monitor lock."""
+        waiter that was already blocked when some set() passed its critical section (flag changed or not) is still blocked
+        while the flag is up unless a woken waiter is itself waiting for the monitor lock."""
         disc = self.disciplined(case)
         mark = {}
         prev_blocked = set()
@@ -427,7 +436,7 @@ class C11(Check):
                 for e in evs:
                     if re.match(r'r\d+:csenter:', e) and e.rsplit(':', 1)[1] != '1':
                         return 'two threads inside the critical section: ' + e
-            if any(re.match(r'M\d+$', e) for e in evs):
+            if any(re.match(r'[MP]\d+$', e) for e in evs):       # a set() took effect (P: even if the flag was already up)
                 for k in prev_blocked:
                     mark[k] = True
             now_blocked = {k for k, t in enumerate(toks) if t.startswith('C1:')}
